@@ -293,6 +293,12 @@ def gen_direct(D, F=None, max_tasks=8, prefix='t', name='wf'):
                     not prog['tasks'][nm].get('with-items'):
                 outcomes[nm] = [['never']]
                 prog['tasks'][nm]['action'] = 'std.async_noop'
+                if F.get('async_timeout_p') and \
+                        D.bool(F['async_timeout_p']):
+                    # the task times out (ERROR) while its action is still
+                    # running: later updates / results of that action are
+                    # late for a finished task
+                    prog['tasks'][nm]['timeout'] = D.int(1, 3)
 
     # rendering forms
     for nm in prog['order']:
